@@ -219,6 +219,8 @@ func vpAddrText(x int, notation string) string {
 		return fmt.Sprintf("::ffff:c000:2%02x", 64+x)
 	case "v6":
 		return fmt.Sprintf("2001:db8::%x", 64+x)
+	case "garbage":
+		return "unknown, 203.0.113.7"
 	}
 	return ""
 }
@@ -311,7 +313,18 @@ func init() {
 						}
 					} else {
 						req.RemoteAddr = "203.0.113.9:40000"
-						req.Header = append(req.Header, [2]string{source, addr})
+						if vpS(c.In, "peer") == "trusted" {
+							// the directly connected peer sits inside the first configured network
+							n0 := first.In["nets"].([]interface{})[0].(map[string]interface{})
+							if vpS(n0, "fam") == "v6" {
+								req.RemoteAddr = "[" + vpAddrText(vpI(n0, "base"), "v6") + "]:40000"
+							} else {
+								req.RemoteAddr = vpAddrText(vpI(n0, "base"), "v4") + ":40000"
+							}
+						}
+						if vpS(c.In, "notation") != "absent" {
+							req.Header = append(req.Header, [2]string{source, addr})
+						}
 					}
 					r := w.do(req)
 					trusted = r.UpHits > 0
